@@ -136,7 +136,9 @@ def e_datum(ctx, n):
                     v2 = o2["adj"] - o2["obs"]
                     v1 = (v1 + 200) % 400 - 200 if o1["tag"] in ("direction", "angle", "azimuth", "zenith-angle") else v1
                     v2 = (v2 + 200) % 400 - 200 if o2["tag"] in ("direction", "angle", "azimuth", "zenith-angle") else v2
-                    if abs(v1 - v2) > 3e-7:
+                    # residuals of two datum choices agree to gama's linearisation stop criterion (0.0005 mm in position per
+                    # observation, several observations interacting): 2e-6 m, 2e-6 gon
+                    if abs(v1 - v2) > 2e-6:
                         dd.append("residual of observation %d (%s): %.9f vs %.9f" % (i, o1["tag"], v1, v2))
                         break
                     if isinstance(o1.get("stdev"), float) and abs(o1["stdev"] - o2["stdev"]) > 3e-4 * max(1.0, abs(o2["stdev"])):
